@@ -404,6 +404,76 @@ func (e *Engine) structural(spec string) (bool, string) {
 			return false, fmt.Sprintf("%d close operations in the function, expected exactly the deferred one", closes)
 		}
 		return true, "begins with defer close(ch); no other close"
+	case "global-writes-confined":
+		// global-writes-confined|<pkg name>|<global>|<allowed function keys,...>: the package-level variable is assigned, and
+		// the map or slice it holds is updated, only in the allowed functions (and in the package initialiser)
+		if len(parts) != 4 {
+			return false, "bad spec"
+		}
+		allowed := map[string]bool{}
+		for _, c := range strings.Split(parts[3], ",") {
+			if c = strings.TrimSpace(c); c != "" {
+				allowed[c] = true
+			}
+		}
+		isG := func(v ssa.Value) bool {
+			for {
+				switch x := v.(type) {
+				case *ssa.UnOp:
+					if x.Op == token.MUL {
+						v = x.X
+						continue
+					}
+				case *ssa.Global:
+					return x.Name() == parts[2]
+				}
+				return false
+			}
+		}
+		var bad []string
+		n := 0
+		found := false
+		for key, fn := range e.funcs {
+			pk := fnPackage(fn)
+			if pk == nil || pkgKey(pk) != parts[1] || fn.Blocks == nil {
+				continue
+			}
+			for _, b := range fn.Blocks {
+				for _, ins := range b.Instrs {
+					w := false
+					switch x := ins.(type) {
+					case *ssa.Store:
+						w = isG(x.Addr)
+					case *ssa.MapUpdate:
+						w = isG(x.Map)
+					case ssa.CallInstruction:
+						if bi, isB := x.Common().Value.(*ssa.Builtin); isB && bi.Name() == "delete" && len(x.Common().Args) > 0 {
+							w = isG(x.Common().Args[0])
+						}
+					case *ssa.UnOp:
+						if isG(x) {
+							found = true
+						}
+					}
+					if !w {
+						continue
+					}
+					found = true
+					n++
+					if !allowed[key] && fn.Name() != "init" {
+						bad = append(bad, key)
+					}
+				}
+			}
+		}
+		if len(bad) > 0 {
+			sort.Strings(bad)
+			return false, parts[2] + " written by " + strings.Join(dedupe(bad), ", ")
+		}
+		if !found {
+			return false, "no use of the global found (vacuous)"
+		}
+		return true, fmt.Sprintf("%d writes, all in set-up code", n)
 	case "under-contract":
 		for _, k := range strings.Split(parts[1], ",") {
 			k = strings.TrimSpace(k)
@@ -433,4 +503,109 @@ func dedupe(xs []string) []string {
 		}
 	}
 	return out
+}
+
+// sharedWrites implements the structural check
+//
+//	shared-writes|<pkg name>|<Type,Type,...>|<allowed function keys,...>
+//
+// Objects of the listed struct types are shared by every goroutine that serves a request. Every write to one of their fields
+// (store through a field address), and every update of or deletion from a map or slice held directly in such a field, made by
+// any function of the package must occur in an allowed function (set-up code that runs before serving), or in a function that
+// also acquires a sync.Mutex/RWMutex write lock held in a field of the same struct, or be a sync/atomic operation.
+// It returns one line per offending (function, field) pair and the number of writes scanned.
+func (e *Engine) sharedWrites(spec string) (offenders []string, scanned int, err string) {
+	parts := strings.Split(spec, "|")
+	if len(parts) != 4 {
+		return nil, 0, "bad spec"
+	}
+	shared := map[string]bool{}
+	for _, c := range strings.Split(parts[2], ",") {
+		shared[strings.TrimSpace(c)] = true
+	}
+	allowed := map[string]bool{}
+	for _, c := range strings.Split(parts[3], ",") {
+		if c = strings.TrimSpace(c); c != "" {
+			allowed[c] = true
+		}
+	}
+	fieldOf := func(v ssa.Value) (string, bool) {
+		// v is the address of, or a value loaded from, a field of a shared struct
+		for {
+			switch x := v.(type) {
+			case *ssa.UnOp:
+				if x.Op == token.MUL {
+					v = x.X
+					continue
+				}
+			case *ssa.FieldAddr:
+				owner := deref(x.X.Type())
+				if nt, ok := types.Unalias(owner).(*types.Named); ok && shared[nt.Obj().Name()] {
+					st := owner.Underlying().(*types.Struct)
+					return nt.Obj().Name() + "." + st.Field(x.Field).Name(), true
+				}
+			}
+			return "", false
+		}
+	}
+	seen := map[string]bool{}
+	for key, fn := range e.funcs {
+		pk := fnPackage(fn)
+		if pk == nil || pkgKey(pk) != parts[1] || fn.Blocks == nil {
+			continue
+		}
+		locks := false
+		for _, b := range fn.Blocks {
+			for _, ins := range b.Instrs {
+				if ci, ok := ins.(ssa.CallInstruction); ok {
+					if f := ci.Common().StaticCallee(); f != nil {
+						n := normName(f.String())
+						if n == "(*sync.Mutex).Lock" || n == "(*sync.RWMutex).Lock" {
+							locks = true
+						}
+					}
+				}
+			}
+		}
+		for _, b := range fn.Blocks {
+			for _, ins := range b.Instrs {
+				var field string
+				var ok bool
+				switch x := ins.(type) {
+				case *ssa.Store:
+					if fa, isFA := x.Addr.(*ssa.FieldAddr); isFA {
+						field, ok = fieldOf(fa)
+					}
+				case *ssa.MapUpdate:
+					field, ok = fieldOf(x.Map)
+				case ssa.CallInstruction:
+					if bi, isB := x.Common().Value.(*ssa.Builtin); isB && bi.Name() == "delete" && len(x.Common().Args) > 0 {
+						field, ok = fieldOf(x.Common().Args[0])
+					}
+				}
+				if !ok {
+					continue
+				}
+				scanned++
+				// a constructor writes the fields of the object it has just allocated
+				if st, isStore := ins.(*ssa.Store); isStore {
+					if fa, isFA := st.Addr.(*ssa.FieldAddr); isFA {
+						if _, isAlloc := fa.X.(*ssa.Alloc); isAlloc {
+							continue
+						}
+					}
+				}
+				if allowed[key] || locks {
+					continue
+				}
+				o := key + ": " + field
+				if !seen[o] {
+					seen[o] = true
+					offenders = append(offenders, o)
+				}
+			}
+		}
+	}
+	sort.Strings(offenders)
+	return offenders, scanned, ""
 }
